@@ -155,4 +155,25 @@ pub fn run(ctx: &Ctx) {
         let _ = Item::Bytes(vec![]);
     });
     ctx.guard_check("accepting and rejecting literals seen", ctx.classes_matching(|c| c.ends_with(":accepted")) > 20 && ctx.classes_matching(|c| c.ends_with(":rejected")) > 20, "both outcomes occurred for many classes");
+    // a field that belongs to ANOTHER kind than the rest of the document, holding a literal that is not a number: the keys that
+    // are present decide the kind (a fee-market field makes it EIP-1559, an access list EIP-2930), so the document is of that
+    // kind with an invalid value and must be refused - it must not be read as the lesser kind with the bad field ignored
+    // (fractions below double resolution are the known finding of the literal sweep and are left to it)
+    let invalid: Vec<J> = lits.iter().filter(|l| matches!(classify_ranged(l, 256, false), Class::Reject) && **l != J::Null && !lit_shape(l).contains("fraction-integral-as-f64")).cloned().collect();
+    let hosts: Vec<(&str, Kind, Vec<&str>)> = vec![("legacy+maxFeePerGas", Kind::Legacy, vec!["maxFeePerGas"]), ("legacy+maxPriorityFeePerGas", Kind::Legacy, vec!["maxPriorityFeePerGas"]), ("legacy+both-fee-fields", Kind::Legacy, vec!["maxFeePerGas", "maxPriorityFeePerGas"]),
+        ("eip2930+maxFeePerGas", Kind::Eip2930, vec!["maxFeePerGas"]), ("eip2930+both-fee-fields", Kind::Eip2930, vec!["maxFeePerGas", "maxPriorityFeePerGas"]), ("legacy-nochain+maxFeePerGas", Kind::Legacy, vec!["maxFeePerGas"])];
+    ctx.sweep("invalid-literal-in-a-field-of-another-kind", "complete legacy / EIP-2930 documents (with gasPrice) plus one or both fee-market fields holding each literal that is not an integer in range (negative, fractional, >= 2^256, empty, malformed, wrong JSON kind): refused, never read as the lesser kind", (hosts.len() * invalid.len()) as u64, |i| {
+        let (hname, kind, extra) = &hosts[i as usize / invalid.len()]; let lit = &invalid[i as usize % invalid.len()];
+        let tx = txjson::template(*kind, !hname.contains("nochain")); let mut f = txjson::tx_fields(&tx, Spell::Auto);
+        for k in extra { f.push((k.to_string(), lit.clone())); }
+        let text = J::Obj(f).reordered(i % 3).to_text(); let shape = format!("{hname}:{}", lit_shape(lit));
+        let replay = json!({"sweep": "invalid-literal-in-a-field-of-another-kind", "index": i, "entry": "serde_json::from_str::<Transaction>", "transaction_json": text, "literal": lit.to_text()});
+        ctx.sample("invalid-literal-in-a-field-of-another-kind", || replay.clone());
+        emit_tx(ctx, "invalid-literal-in-a-field-of-another-kind", i, 7, &shape, &text, None, "must-reject", &refmodel::secp::Curve::new());
+        match observe_tx(&text, &sig) {
+            Err(p) => { ctx.eval(format!("{shape}:panic")); ctx.panic_violation(format!("{P}:tx:{shape}:panic@{}", explore::panic_site(&p)), format!("panics: {p}"), replay) }
+            Ok(Err(_)) => ctx.eval(format!("{shape}:rejected")),
+            Ok(Ok(o)) => { ctx.eval(format!("{shape}:accepted")); ctx.violation(format!("{P}:tx:{hname}:{}:accepted", lit_shape(lit)), format!("the document has a fee-market field, which makes it EIP-1559, holding {} - it was accepted (as kind {:?}) with the field ignored", lit.to_text(), o.kind), replay) }
+        }
+    });
 }
